@@ -64,16 +64,18 @@ impl Angle {
         // handle negative angles by adding full rotations
         let normalized_total = if total_angle < 0.0 {
             let full_rotations = (total_angle.abs() / (4.0 * quarter_pi)).ceil();
-            total_angle + full_rotations * 4.0 * quarter_pi
+            // rounding can leave the shifted total a few ulps below zero
+            (total_angle + full_rotations * 4.0 * quarter_pi).max(0.0)
         } else {
             total_angle
         };
 
-        // count complete π/2 rotations (preserve full count)
-        let blade = (normalized_total / quarter_pi) as usize;
-
         // remainder within current π/2 segment
         let rem = normalized_total % quarter_pi;
+
+        // count complete π/2 rotations (preserve full count)
+        // derived from the remainder so blade and rem always describe the same split
+        let blade = ((normalized_total - rem) / quarter_pi).round() as usize;
 
         let angle = Self { rem, blade };
         angle.normalize_boundaries()
